@@ -35,13 +35,22 @@ def _mu_constraints(rso, ez, pieces, d):
     return out
 
 
-def declare_ambiguity(rso, b, amb):
+def declare_ambiguity(rso, b, amb, fset=None, decoy=False):
+    """fset=None: create the ambiguity set.  decoy=True: declare only DECOY supports / probabilities (a small box for
+    every scenario, uniform probabilities) - the real declaration follows later on the same object (late histories)."""
     from .ro_build import set_constraints, _set_args
     m, z, spec = b.m, b.z, b.spec
     d, ns = spec['d'], spec['S']
     labels = spec['labels']
-    fset = m.ambiguity()
-    b.ops += 1
+    if fset is None:
+        fset = m.ambiguity()
+        b.ops += 1
+    if decoy:
+        fset.suppset(z >= -0.25, z <= 0.25)
+        if amb.get('prob', {'kind': 'free'})['kind'] != 'free':
+            fset.probset(m.p == 1.0 / ns)
+        b.ops += 2
+        return fset
     decl = amb.get('supp_decl', 'each')
     if decl == 'global':
         fset.suppset(*_set_args(set_constraints(rso, z, amb['supp'][0]['pieces'], d), 'mixed'))
@@ -226,7 +235,8 @@ def build(rsome, spec):
                     if mask[j, i]:
                         y[j].adapt(z[i])
                         b.ops += 1
-    b.F = declare_ambiguity(rso, b, spec['F']) if spec.get('F') else None
+    late = spec.get('late')
+    b.F = declare_ambiguity(rso, b, spec['F'], decoy=bool(late)) if spec.get('F') else None
     b.F2 = declare_ambiguity(rso, b, spec['F2']) if spec.get('F2') else None
 
     o = spec['obj']
@@ -266,6 +276,26 @@ def build(rsome, spec):
             b.ops += 1
         m.st(con)
         b.ops += 2
+    if late and b.F is not None:
+        # first formulation under the decoy declaration, then the declared supports / expectation sets / probabilities
+        try:
+            if late == 'S':
+                if spec.get('solver', 'def') == 'def':
+                    m.solve(display=False)
+                else:
+                    m.solve({'eco': rso.eco_solver, 'grb': rso.grb_solver, 'ort': rso.ort_solver}[spec['solver']],
+                            display=False)
+            elif late == 'P':
+                m.do_math()
+            elif late == 'D':
+                m.do_math(primal=False)
+            elif late == 'PD':
+                m.do_math()
+                m.do_math(primal=False)
+        except Exception:  # noqa  (the decoy model need not be solvable)
+            pass
+        declare_ambiguity(rso, b, spec['F'], fset=b.F)
+        b.ops += 1
     return b
 
 
